@@ -17,6 +17,12 @@ Theorem C35_sat_range : forall a b, a < P51 -> a <= b -> b - a < P37 ->
             sat_range_load v = Ok (a, b).
 Proof. exact sat_range_roundtrip. Qed.
 
+(* conversely every 11-byte value is the image of the range it loads to (the packing is a bijection
+   between 88-bit strings and ranges with base < 2^51, length < 2^37) *)
+Theorem C35_sat_range_value : forall v, length v = 11%nat -> bytes v ->
+  exists r, sat_range_load v = Ok r /\ range_ok r /\ sat_range_store r = Ok v.
+Proof. exact sat_range_value_roundtrip. Qed.
+
 Corollary C35_sat_range_in_supply : forall a b,
   a < STORAGE_SAT_SUPPLY -> a <= b -> b - a <= STORAGE_SUBSIDY_COINS * STORAGE_COIN_VALUE ->
   exists v, sat_range_store (a, b) = Ok v /\ sat_range_load v = Ok (a, b).
@@ -92,6 +98,31 @@ Theorem C35_header_layout : forall h, header_ok h ->
   length (header_store h) = 80%nat /\ header_load (header_store h) = h.
 Proof. exact header_roundtrip. Qed.
 
+(* UTXO entries: for every one of the eight index configurations, writing a well-formed entry the
+   way the updater does (sat ranges or value, script, one push per inscription) and reading it
+   back through parse / total_value / sat range loading / parse_inscriptions gives the entry. *)
+Theorem C35_utxo_entry : forall c e, wf c e ->
+  exists bs, write_entry c e = Ok bs /\ read_entry c bs = Ok e.
+Proof. exact utxo_entry_roundtrip. Qed.
+
+(* merged (mergeable = the lost-sats / unbound-inscriptions pseudo-outputs: no script, no value
+   without the sat index): the result reads back as the ranges of both operands in order, the
+   inscriptions of both in order, and the sum of the values. *)
+Theorem C35_merged : forall c ea eb, mergeable c ea eb ->
+  exists a b m, write_entry c ea = Ok a /\ write_entry c eb = Ok b /\ merged c a b = Ok m /\
+    read_entry c m = Ok {| u_ranges := u_ranges ea ++ u_ranges eb; u_value := u_value ea + u_value eb;
+                           u_script := []; u_inscriptions := u_inscriptions ea ++ u_inscriptions eb |}.
+Proof. exact merged_keeps_both. Qed.
+
+Theorem C35_utxo_empty : forall c,
+  exists bs, utxo_empty c = Ok bs /\
+    read_entry c bs = Ok {| u_ranges := []; u_value := 0; u_script := []; u_inscriptions := [] |}.
+Proof.
+  intros c. eexists. split; [apply empty_layout|]. apply read_entry_layout.
+  unfold wf. cbn. repeat split; try constructor; try (destruct (index_sats c)); try (destruct (index_addresses c));
+    try (destruct (index_inscriptions c)); cbn; try reflexivity; try constructor; unfold U64_MAX; lia.
+Qed.
+
 (* Non-vacuity: the last sat of the supply with a full first-epoch subsidy is in the domain. *)
 Example C35_nonvacuous :
   let a := STORAGE_SAT_SUPPLY - 1 in
@@ -101,7 +132,19 @@ Example C35_nonvacuous :
   decode_rune_balances 57 (encode_rune_balances [((U64_MAX, U32_MAX), U128_MAX)]) = Ok [((U64_MAX, U32_MAX), U128_MAX)].
 Proof. vm_compute. repeat split. Qed.
 
+Example C35_nonvacuous_utxo :
+  let c := {| index_sats := true; index_addresses := true; index_inscriptions := true |} in
+  let e := {| u_ranges := [(0, 5000000000); (STORAGE_SAT_SUPPLY - 1, STORAGE_SAT_SUPPLY)]; u_value := 5000000001;
+              u_script := [81; 32; 7]; u_inscriptions := [(0, 0); (U32_MAX, U64_MAX)] |} in
+  wf c e /\ (do bs <- write_entry c e; read_entry c bs) = Ok e.
+Proof.
+  split; [|vm_compute; reflexivity].
+  unfold wf, range_ok, ins_ok. cbn. repeat split; repeat constructor; cbn; vm_compute; try reflexivity; intros H; discriminate H.
+Qed.
+
 Print Assumptions C35_sat_range.
 Print Assumptions C35_rune_balances.
 Print Assumptions C35_rune_entry.
 Print Assumptions C35_header_layout.
+Print Assumptions C35_utxo_entry.
+Print Assumptions C35_merged.
